@@ -69,3 +69,30 @@ let () =
   register "names_join" (function [base; elems] ->
       str_of_path (join (path_of base) (List.map bytes_of_hex (if elems = "!" then [] else String.split_on_char '.' elems)))
     | _ -> "?args")
+
+(* ---- recvFiles: the loop and the names it reports (C07) ---- *)
+let () =
+  register "nr_run" (function [flags; dest; pre; recs] ->
+      let fl i = flags.[i] = '1' in
+      let cfg = { overwrite = fl 0; directory = fl 1; v3 = false } in
+      let ck = { chk_unmarshal = fl 2; chk_create_file = fl 3 } in
+      let table = Hashtbl.create 16 in
+      let rs = List.map (fun r -> match String.split_on_char ':' r with
+          | [raw; dec; pl; ents] ->
+            let rawb = bytes_of_hex raw in
+            Hashtbl.replace table rawb (src_of dec);
+            let es = List.map (fun e -> match String.split_on_char '~' e with
+                | [eraw; edec; epl] ->
+                  let erb = bytes_of_hex eraw in
+                  Hashtbl.replace table erb (src_of edec);
+                  (erb, bytes_of_hex epl)
+                | _ -> failwith "entry") (split '+' ents) in
+            { nr_raw = rawb; nr_payload = bytes_of_hex pl; nr_entries = es }
+          | _ -> failwith "record") (split ',' recs) in
+      let decode raw = match Hashtbl.find_opt table raw with Some d -> d | None -> None in
+      let (res, st) = nr_run_gen decode ck cfg (path_of dest) rs (fs_of pre) in
+      let names = match res with
+        | None -> "!err"
+        | Some l -> String.concat "," (List.map hex0 l) in
+      Printf.sprintf "N=%s|C=%s|F=%s" names (String.concat ";" (List.map str_of_path st.st_created)) (listing st.st_fs)
+    | _ -> "?args")
